@@ -23,7 +23,7 @@ def to_smt2(formulas, want_model=False):
     text = s.to_smt2()
     text = '(set-logic ALL)\n' + text
     if want_model:
-        text = text.replace('(check-sat)', '(check-sat)\n(get-model)')
+        text = text.replace('(check-sat)', '(check-sat)\n(get-info :reason-unknown)\n(get-model)')
     return text
 
 
@@ -38,9 +38,18 @@ def run_solver(name, cmd, path, timeout):
     except FileNotFoundError:
         return 'missing', '', 0.0
     first = out.split('\n', 1)[0].strip() if out else ''
-    if first in ('sat', 'unsat', 'unknown'):
+    if first == 'unknown':
+        # z3 gives up with a candidate model that satisfies every quantifier instance it generated
+        # (reason "(incomplete quantifiers)"): the standard "verification failed" answer of SMT-based
+        # deductive verifiers.  Timeouts / cancellations / resource limits stay undecided.
+        m = re.search(r':reason-unknown\s+"([^"]*)"', out)
+        reason = m.group(1) if m else ''
+        if 'incomplete' in reason and 'timeout' not in reason and 'canceled' not in reason:
+            return 'sat-candidate', out, time.time() - t0
+        return 'unknown', out, time.time() - t0
+    if first in ('sat', 'unsat'):
         return first, out, time.time() - t0
-    if 'timeout' in out:
+    if 'timeout' in out or 'interrupted' in (out + p.stderr):
         return 'timeout', out, time.time() - t0
     return 'error', (out + '\n' + p.stderr)[:2000], time.time() - t0
 
@@ -63,12 +72,22 @@ def discharge_one(ob, text, workdir, timeout, second_opinion=False):
     with open(path, 'w') as fh:
         fh.write(text)
     answers = {}
-    for name, cmd in SOLVERS:
+    solvers = SOLVERS
+    if ob.expect == 'sat':
+        # vacuity canaries: satisfiability under quantified axioms is rarely decidable; short budget, one solver
+        solvers = SOLVERS[:1]
+        timeout = min(timeout, 4)
+    for name, cmd in solvers:
         if name.startswith('cvc5') and '(lambda' in text:
             continue
         v, out, secs = run_solver(name, cmd, path, timeout)
         r.tried.append((name, v, round(secs, 3)))
         r.seconds += secs
+        if v == 'sat-candidate' and ob.expect == 'unsat':
+            if not r.model:
+                r.model = out[:20000]
+                r.candidate = name
+            continue
         if v in ('sat', 'unsat'):
             answers[name] = v
             if r.solver is None:
@@ -97,6 +116,9 @@ def discharge_one(ob, text, workdir, timeout, second_opinion=False):
         r.verdict = 'discharged'
     elif 'sat' in vs:
         r.verdict = 'refuted'
+    elif getattr(r, 'candidate', None):
+        r.verdict = 'refuted'
+        r.solver = r.candidate + ' (candidate model, incomplete quantifiers)'
     else:
         r.verdict = 'unknown'
     return r
